@@ -12,12 +12,14 @@ RULE = ('LLE: Hypothesis draws Water + one partially miscible organic (12 alcoho
         '[285,355] K, P, Stream or MultiStream entry (material spread over l/L), top_chemical in chemicals+None, a '
         'scale factor 10**[-3,3], solver method (pseudo equilibrium; shgo / differential evolution in the thorough '
         'tier) and, for the history check, 1-4 earlier calls on the same stream (same/scaled/other/sparse/dilute '
-        'composition, same/lower/higher T, own top_chemical and use_cache; in a quarter of the cases the final feed '
+        'composition or one sharing exactly one / exactly n-2 mole fractions with the final feed (mostly at the '
+        'same T), same/lower/higher T, own top_chemical and use_cache; in a quarter of the cases the final feed '
         'is first moved next to a one-liquid/two-liquid boundary located by bisection with the code under test and '
         'the last earlier call is that feed at another T). Oracles: x*gamma equal in both liquids with gamma '
         'from thermo.Gamma evaluated by the check; scaled feed gives proportional flows; w_top(L) >= w_top(l); '
         'use_cache=True on the stream equals use_cache=False on an identically treated clone; both equal a '
-        'history-free stream holding the same material. SLE: solute (Tetradecanol, LacticAcid, AceticAcid, Glucose '
+        'history-free stream holding the same material; 48 quick cases repeat the cache/history comparison with '
+        'shgo / differential evolution on 3 chemicals after one earlier call sharing one mole fraction. SLE: solute (Tetradecanol, LacticAcid, AceticAcid, Glucose '
         'with the doctest Cn models, Phenol, Naphthalene, Dodecanol) in a package with 1-3 solvents (a mixture always '
         'has a liquid solvent, a fifth of the cases is the solute alone) and optionally a second solute, ideal or '
         'Dortmund activity model, T in [250,450] K or H of such '
@@ -40,7 +42,9 @@ ASSUMPTIONS = ['all chemicals come from the offline database with Dortmund-UNIFA
 REQUIRED_CELLS = {'quick': ['lle:two_liquids', 'lle:one_liquid', 'lle:top=present', 'lle:top=none', 'lle:kind=S',
                             'lle:kind=M', 'lle.hist:boundary-feed=found', 'lle.hist:mem=none,dT=lower,dz=same',
                             'lle.hist:mem=none,dT=same,dz=diff', 'lle.hist:mem=none,dT=higher,dz=diff',
-                            'lle.hist:mem=K,dT=lower,dz=same', 'sle:pure', 'sle:solubility-clause-applied:nonideal=0',
+                            'lle.hist:mem=K,dT=lower,dz=same', 'lle.hist:step-shares-a-fraction',
+                            'lle.hist:mem=K,dT=same,dz=share', 'lle.ghist:method=shgo,dT=same,dz=share',
+                            'sle:pure', 'sle:solubility-clause-applied:nonideal=0',
                             'sle.hist:spec=T,sol=computed,hist=plain', 'sle.hist:spec=H,sol=computed,hist=plain',
                             'sle.hist:spec=T,sol=given,hist=plain', 'sle.hist:spec=T,sol=computed,hist=pure'],
                   'thorough': ['lle:method=shgo', 'lle:method=de']}
@@ -139,6 +143,25 @@ def draw_feed(ch, tag, names, must_have=()):
         else:
             out.append(ch.logfloat(f'{tag}.f{i}', -2.0, 1.5))
     return out
+
+
+def draw_shared(ch, tag, feed):
+    """A composition with the same chemicals present and the same total as ``feed`` in which exactly one, or exactly
+    n-2, of the mole fractions are unchanged (n-1 unchanged fractions would be the same composition) and every
+    other one differs by more than 2e-4.  Needs >= 3 chemicals present; returns None otherwise."""
+    feed = np.array(feed, float)
+    P = [i for i, v in enumerate(feed) if v > 0]
+    if len(P) < 3:
+        return None
+    nkeep = 1 if (len(P) == 3 or ch.bool(f'{tag}.share.one')) else len(P) - 2
+    keep = ch.subset(f'{tag}.share.keep', P, min_size=nkeep, max_size=nkeep)
+    rest = [i for i in P if i not in keep]
+    w = np.array([ch.logfloat(f'{tag}.share.w{i}', -1.5, 1.5) for i in rest]) * (1.0 + 2.0 * np.arange(len(rest)))
+    new = feed.copy()
+    new[rest] = w / w.sum() * feed[rest].sum()
+    if (np.abs(new[rest] - feed[rest]) <= 2e-4 * feed.sum()).any():
+        return None           # a drawn weight reproduces an old fraction (rare): no shared-fraction step
+    return new.tolist()
 
 
 def draw_spread(ch, tag, n):
@@ -273,8 +296,11 @@ def relation(last, present, T, z):
     if not sameset:
         dz = 'set'
     else:
-        m = float(np.abs(last[2] - z).max())
+        d = np.abs(last[2] - z)[np.array(present, bool)]
+        m = float(d.max())
         dz = 'same' if m <= 1e-12 else ('diff' if m >= 1e-4 else 'near')
+        if dz == 'diff' and float(d.min()) <= 1e-9:
+            dz = 'share'      # another composition in which at least one mole fraction is unchanged
     return mem, dT, dz
 
 
@@ -392,8 +418,14 @@ def prop_lle_history(ch, ctx):
     nh = ch.int('nh', 1, 4)
     steps = []
     for i in range(nh):
-        ck = ch.choice(f'h{i}.comp', ['same', 'scaled', 'other', 'other', 'sparse', 'dilute'])
-        if ck == 'same':
+        ck = ch.choice(f'h{i}.comp', ['same', 'scaled', 'other', 'other', 'sparse', 'dilute', 'share', 'share'])
+        if ck == 'share':
+            fi = draw_shared(ch, f'h{i}', feed)
+            if fi is None:
+                ck, fi = 'same', feed.tolist()
+            else:
+                ctx.cell('lle.hist:step-shares-a-fraction')
+        elif ck == 'same':
             fi = feed.tolist()
         elif ck == 'scaled':
             fi = (feed * ch.logfloat(f'h{i}.k', -2.0, 2.0)).tolist()
@@ -407,6 +439,8 @@ def prop_lle_history(ch, ctx):
         else:
             fi = draw_feed(ch, f'h{i}', names)
         tk = ch.choice(f'h{i}.T', ['same', 'lower', 'higher', 'any'])
+        if ck == 'share' and ch.int(f'h{i}.share.sameT', 0, 3) > 0:
+            tk = 'same'         # the cache can only be (mis)used at the same temperature
         if tk == 'same':
             Ti = T
         elif tk == 'lower':
@@ -504,11 +538,99 @@ def prop_lle_history(ch, ctx):
     fails.flush()
 
 
+# ---------------------------------------------------------------------------
+# global methods after one earlier call whose composition shares a mole fraction (cache / history clauses only)
+# ---------------------------------------------------------------------------
+
+GLOBAL_HIST_RTOL = 1e-4     # the three answers are the same deterministic optimisation (DE is seeded, shgo has no
+                            # randomness) of the same normalised feed: observed difference exactly 0
+
+
+def prop_lle_global_history(ch, ctx):
+    """shgo / differential evolution really re-solve, so (unlike 'pseudo equilibrium' under C15-F1) a wrongly reused
+    set of partition coefficients shows as use_cache=True != use_cache=False.  Three chemicals, one earlier call at
+    the same T whose composition shares exactly one mole fraction with the final feed (or, one case in four, is an
+    independent composition / at another T), then: stream s with the default use_cache=True, identically treated
+    clone c with use_cache=False, history-free stream f.  The iso-activity clause is not evaluated here (C15-F9)."""
+    org = ch.choice('organic', ORGANICS)
+    co = ch.choice('cosolvent', COSOLVENTS)
+    names = ['Water', org, co]
+    order = ch.permutation('order', 3)
+    names = [names[i] for i in order]
+    th = chem.thermo_of(names)
+    tmo.settings.set_thermo(th)
+    method = ch.choice('method', ['shgo', 'shgo', 'differential evolution'])
+    mtag = 'shgo' if method == 'shgo' else 'de'
+    T = ch.float('T', T_LO, T_HI)
+    # fixed multipliers keep Hypothesis' all-minimal first example (every shard starts with it) a real
+    # shared-fraction case: feed 1 : 0.6 : 0.25, earlier call 1 : 0.2125 : 0.6375
+    feed = np.array([ch.logfloat(f'feed.f{i}', -1.0, 1.0) for i in range(3)]) * np.array([1.0, 0.6, 0.25])
+    top = ch.choice('top', [None] + names)
+    hk = ch.choice('h.comp', ['share', 'share', 'share', 'other'])
+    hfeed = draw_shared(ch, 'h', feed) if hk == 'share' else None
+    if hfeed is None:
+        hk = 'other'
+        hfeed = [ch.logfloat(f'h.f{i}', -1.0, 1.0) for i in range(3)]
+    hT = T if ch.int('h.sameT', 0, 7) > 0 else min(T_HI, max(T_LO, T + ch.choice('h.dT', [-20.0, -2.0, 2.0, 20.0])))
+    htop = ch.choice('h.top', [None] + names)
+    hfeed = np.array(hfeed, float)
+    F = feed.sum()
+
+    def fresh(fd, T0):
+        x = tmo.MultiStream(None, phases=('l', 'L'), T=T0, P=101325.0, thermo=th)
+        x.imol['l'] = np.array(fd, float)
+        x.lle.method = method
+        return x
+    s, c = fresh(hfeed, hT), fresh(hfeed, hT)
+    for x in (s, c):
+        try:
+            x.lle(hT, top_chemical=htop)
+        except Exception as e:
+            ctx.reject(f'history step raised {type(e).__name__} (lle_global reports exceptions)')
+        put_feed(x, feed, [1.0, 1.0, 1.0])
+    h_l, h_L = s.imol['l'].to_array(), s.imol['L'].to_array()
+    present = (1, 1, 1)
+    last = (present, hT, hfeed / hfeed.sum(), True, '')
+    _, dT, dz = relation(last, present, T, feed / F)
+    if dz == 'near':
+        ctx.reject('history composition straddles the cache tolerance')
+    reg = f'method={mtag},dT={dT},dz={dz}'
+    ctx.cell(f'lle.ghist:{reg}')
+    f = fresh(feed, T)
+    try:
+        f.lle(T, top_chemical=top)
+    except Exception as e:
+        ctx.reject(f'history-free call raised {type(e).__name__} (lle_global reports exceptions)')
+    rf = split_of(f)
+    rs = lle_call(ctx, s, T, None, top, True, f'{reg},hist=1,cache=1')
+    rc = lle_call(ctx, c, T, None, top, False, f'{reg},hist=1,cache=0')
+    fails = Failures(ctx)
+    ordered = top is not None
+    desc = lambda: f'{names} method={method} earlier call feed={hfeed.tolist()} T={hT} top={htop}; final feed={feed.tolist()} T={T} top={top}'
+    r1 = pair_resid(rs, rc, F, GLOBAL_HIST_RTOL, ordered)
+    ctx.metric_max(f'lle.cache:resid/tol:{mtag}', r1)
+    fails.check(r1 <= 1.0, f'lle.cache|{reg}|mismatch',
+                lambda: f'use_cache=True l={rs[0].tolist()} L={rs[1].tolist()} but use_cache=False l={rc[0].tolist()} '
+                        f'L={rc[1].tolist()}; {desc()}')
+    for tag, r in (('cache=0', rc), ('cache=1', rs)):
+        rr = pair_resid(r, rf, F, GLOBAL_HIST_RTOL, ordered)
+        ctx.metric_max(f'lle.history:resid/tol:{mtag},{tag}', rr)
+        fails.check(rr <= 1.0, f'lle.history|{tag},{reg}|mismatch',
+                    lambda: f'after history l={r[0].tolist()} L={r[1].tolist()}, history-free l={rf[0].tolist()} '
+                            f'L={rf[1].tolist()}; {desc()}')
+        top_clause(fails, th, names, top, r[0], r[1], f'{reg},hist=1,{tag}')
+    if two_liquids(rf[0], rf[1], F):
+        ctx.cell('lle.ghist:two_liquids')
+        ctx.nontriv(['lle.ghist', names, mtag, top, int(T // 10), reg, hk])
+    fails.flush()
+
+
 PROPS = {
     'lle_fresh': (prop_lle_fresh, 2000, 30000, {'shrink': False}),
-    'lle_history': (prop_lle_history, 1200, 12000, {'shrink': False}),
+    'lle_history': (prop_lle_history, 960, 12000, {'shrink': False}),
     'lle_global': (prop_lle_global, 0, 200, {'shrink': False}),
     'lle_call': (prop_lle_call, 0, 0, {'shrink': False}),
+    'lle_global_history': (prop_lle_global_history, 48, 600, {'shrink': False}),
 }
 
 
